@@ -347,6 +347,24 @@ fn main() {
                     lines.push("audit 0".into());
                     lines.push("len 0".into());
                 }
+                // blocks of tens of MiB: a string just above 32 MiB (64, 128 in thorough) that must land in a
+                // doubled block
+                lines.push("case spur fnv1a".into());
+                lines.push("pool".into());
+                lines.push(format!("new 0 {kind} 0 {} max", 20usize << 20));
+                // 20 MiB blocks: 32 MiB + 1 lands in a doubled block of 40 MiB, 41 MiB then needs one of 80 MiB
+                let mut huge = vec![(32usize << 20) + 1, 41 << 20];
+                if tier == "thorough" {
+                    huge.extend([(128 << 20) + 1, (300 << 20) + 7]);
+                }
+                let mut last = Vec::new();
+                for sz in huge {
+                    n += 1;
+                    lines.push(format!("internRep 0 {} {sz}", harness::hex(format!("#{n}#").as_bytes())));
+                    lines.push("audit 0".into());
+                    last.push((n, sz));
+                }
+                lines.push("len 0".into());
             }
             std::fs::write(format!("{prefix}.ops"), lines.join("\n") + "\n").unwrap();
             // the leak re-runs would triple the cost; the block audit and the content oracles are what matters here
@@ -363,7 +381,7 @@ fn main() {
             let prefix = &args[4];
             let mut rng = harness::Rng::new(seed ^ 0x10d0c);
             let mut lines: Vec<String> = Vec::new();
-            let sizes: Vec<usize> = if tier == "thorough" { vec![1500, 7300, 9000, 15000, 30000, 70000] } else { vec![7300, 9000, 15000] };
+            let sizes: Vec<usize> = if tier == "thorough" { vec![1500, 7300, 9000, 15000, 30000, 70000, 120000, 270000, 600000] } else { vec![7300, 9000, 15000, 120000] };
             let hashers: Vec<&str> = if tier == "thorough" { vec!["fnv1a", "topBitsConst"] } else { vec!["fnv1a"] };
             for h in hashers {
                 for kind in ["reader", "rodeo", "resolver", "threaded"] {
@@ -372,6 +390,10 @@ fn main() {
                     let mut slot = 0;
                     for &n in &sizes {
                         if h != "fnv1a" && n > 9000 {
+                            continue;
+                        }
+                        // the largest documents only for the deserialisers that build a table
+                        if n > 100000 && (kind == "resolver" || kind == "threaded") && tier != "thorough" {
                             continue;
                         }
                         let tagged = rng.below(1000);
@@ -396,7 +418,7 @@ fn main() {
                             lines.push(format!("tryResolve {slot} {i}"));
                         }
                         lines.push(format!("get {slot} {}", harness::hex(b"absent-string")));
-                        if kind != "resolver" && kind != "threaded" {
+                        if kind != "resolver" && kind != "threaded" && n <= 30000 {
                             // the same list with one late repeat: must be refused (or at least stay consistent)
                             let mut l2 = strs.clone();
                             let at = n - 1 - rng.below(50) as usize;
@@ -407,6 +429,139 @@ fn main() {
                         slot += 2;
                     }
                 }
+            }
+            std::fs::write(format!("{prefix}.ops"), lines.join("\n") + "\n").unwrap();
+            std::env::set_var("SEQ_NO_LEAK_RERUN", "1");
+            supervise(prefix);
+        }
+        Some("hugeeq") => {
+            // oracle-only stream about *finding* very long strings again (16 MiB and more): present strings keep
+            // their keys whatever the limit is now, and under hashers that cannot tell strings of one length
+            // apart an absent string of that length stays absent - in the interner and in the reader made from it
+            let _tier = &args[2];
+            let prefix = &args[4];
+            let mut lines: Vec<String> = Vec::new();
+            for kind in ["rodeo", "threaded"] {
+                lines.push("case spur fnv1a".into());
+                lines.push("pool".into());
+                lines.push(format!("new 0 {kind} 0 4096 max"));
+                let last = [(1usize, (16usize << 20) + 5), (2usize, (17usize << 20) + 1)];
+                for (m, sz) in &last {
+                    lines.push(format!("internRep 0 {} {sz}", harness::hex(format!("#{m}#").as_bytes())));
+                }
+                lines.push("len 0".into());
+                // strings already present must be found again whatever the limit is now
+                lines.push("setLimit 0 4096".into());
+                for (m, sz) in &last {
+                    lines.push(format!("internRep 0 {} {sz}", harness::hex(format!("#{m}#").as_bytes())));
+                    lines.push(format!("getRep 0 {} {sz}", harness::hex(format!("#{m}#").as_bytes())));
+                }
+                lines.push("setLimit 0 max".into());
+                lines.push("len 0".into());
+                // very long strings of one length under hashers that cannot tell them apart: present ones keep
+                // their keys, an absent one of the same length stays absent - in the interner and in its reader
+                for h in ["len", "const0"] {
+                    lines.push(format!("case spur {h}"));
+                    lines.push("pool".into());
+                    lines.push(format!("new 0 {kind} 0 4096 max"));
+                    let sz = (16usize << 20) + 3;
+                    for p in ["p1", "p2"] {
+                        lines.push(format!("internRep 0 {} {sz}", harness::hex(p.as_bytes())));
+                    }
+                    for p in ["p1", "p2", "p3"] {
+                        lines.push(format!("getRep 0 {} {sz}", harness::hex(p.as_bytes())));
+                    }
+                    lines.push("intoReader 0".into());
+                    for p in ["p2", "p1", "p3"] {
+                        lines.push(format!("getRep 0 {} {sz}", harness::hex(p.as_bytes())));
+                    }
+                    lines.push("len 0".into());
+                }
+            }
+            std::fs::write(format!("{prefix}.ops"), lines.join("\n") + "\n").unwrap();
+            std::env::set_var("SEQ_NO_LEAK_RERUN", "1");
+            supervise(prefix);
+        }
+        Some("many") => {
+            // oracle-only stream of very many strings (hundreds of thousands: beyond the capacity of the 16-bit
+            // key type and beyond any plausible "large interner" threshold): `seq many <tier> <seed> <prefix>`
+            let tier = &args[2];
+            let seed: u64 = args[3].parse().unwrap();
+            let prefix = &args[4];
+            let mut rng = harness::Rng::new(seed ^ 0x3a17);
+            let mut lines: Vec<String> = Vec::new();
+            let big_n: usize = if tier == "thorough" { 1_200_000 } else { 300_000 };
+            for kind in ["rodeo", "threaded"] {
+                // 1. the 16-bit key type filled to its capacity through real interning, then one more
+                lines.push("case mini fnv1a".into());
+                lines.push("pool".into());
+                lines.push(format!("new 0 {kind} 0 4096 max"));
+                lines.push(format!("internMany 0 {} 65535", harness::hex(b"m")));
+                lines.push("len 0".into());
+                lines.push(format!("intern 0 {}", harness::hex(b"one-more")));
+                lines.push(format!("intern 0 {}", harness::hex(b"m123")));
+                lines.push(format!("get 0 {}", harness::hex(b"m65534")));
+                lines.push("tryResolve 0 65534".into());
+                lines.push("tryResolve 0 65535".into());
+                lines.push("intoReader 0".into());
+                lines.push(format!("get 0 {}", harness::hex(b"m40000")));
+                lines.push("len 0".into());
+                // 2. a large interner: fill, query, clear and refill (single-threaded interner), clone, views
+                lines.push("case spur fnv1a".into());
+                lines.push("pool".into());
+                lines.push(format!("new 0 {kind} 0 4096 max"));
+                lines.push(format!("internMany 0 {} {big_n}", harness::hex(b"k")));
+                lines.push("len 0".into());
+                for _ in 0..6 {
+                    let i = rng.below(big_n as u64);
+                    lines.push(format!("get 0 {}", harness::hex(format!("k{i}").as_bytes())));
+                    lines.push(format!("tryResolve 0 {i}"));
+                }
+                lines.push(format!("tryResolve 0 {big_n}"));
+                lines.push("audit 0".into());
+                // a serialisation round trip of the large interner, then lookups and continued interning on the copy
+                lines.push("roundtrip 0 2".into());
+                lines.push("len 2".into());
+                lines.push(format!("get 2 {}", harness::hex(b"k5")));
+                lines.push(format!("get 2 {}", harness::hex(format!("k{}", big_n - 1).as_bytes())));
+                lines.push(format!("intern 2 {}", harness::hex(b"k77")));
+                lines.push(format!("intern 2 {}", harness::hex(b"fresh-after-roundtrip")));
+                lines.push("drop 2".into());
+                if kind == "rodeo" {
+                    lines.push("clone 0 1".into());
+                    lines.push("len 1".into());
+                    lines.push(format!("get 1 {}", harness::hex(format!("k{}", big_n - 1).as_bytes())));
+                    lines.push("clear 0".into());
+                    lines.push("len 0".into());
+                    lines.push("audit 0".into());
+                    lines.push(format!("get 0 {}", harness::hex(b"k5")));
+                    lines.push(format!("internMany 0 {} 2000", harness::hex(b"again")));
+                    lines.push("len 0".into());
+                    lines.push("tryResolve 0 1999".into());
+                    lines.push("audit 0".into());
+                    lines.push("drop 1".into());
+                }
+                lines.push("intoResolver 0".into());
+                lines.push("len 0".into());
+                lines.push("tryResolve 0 7".into());
+                // 3. a limited interner filled until the memory limit refuses, then cleared and refilled
+                lines.push("case spur fnv1a".into());
+                lines.push("pool".into());
+                lines.push(format!("new 0 {kind} 0 4096 {}", 4usize << 20));
+                lines.push(format!("internMany 0 {} {}", harness::hex(b"lim"), 1usize << 20));
+                lines.push("len 0".into());
+                lines.push("mem 0".into());
+                lines.push("audit 0".into());
+                if kind == "rodeo" {
+                    lines.push("clear 0".into());
+                    lines.push("len 0".into());
+                    lines.push(format!("internMany 0 {} 3000", harness::hex(b"after")));
+                    lines.push("len 0".into());
+                    lines.push("audit 0".into());
+                }
+                lines.push("setLimit 0 max".into());
+                lines.push(format!("internMany 0 {} 5000", harness::hex(b"raised")));
+                lines.push("len 0".into());
             }
             std::fs::write(format!("{prefix}.ops"), lines.join("\n") + "\n").unwrap();
             std::env::set_var("SEQ_NO_LEAK_RERUN", "1");
